@@ -71,8 +71,18 @@ class HoloPyObject(Serializable):
         return dict(self._iteritems())
 
     def _iteritems(self):
-        for var in self.__init__.__code__.co_varnames[1:]:
-            if getattr(self, var, None) is not None:
+        init = self.__init__
+        code = init.__code__
+        positional = code.co_varnames[:code.co_argcount]
+        defaults = dict(zip(positional[::-1],
+                            (init.__defaults__ or ())[::-1]))
+        defaults.update(init.__kwdefaults__ or {})
+        for var in code.co_varnames[1:]:
+            # an explicit None is kept when the constructor's default is
+            # something else; dropping it would reload as that default
+            explicit_none = (hasattr(self, var) and
+                             defaults.get(var) is not None)
+            if getattr(self, var, None) is not None or explicit_none:
                 item = getattr(self, var)
                 if isinstance(item, np.ndarray) and item.ndim == 1:
                     item = list(item)
